@@ -4,4 +4,9 @@ MCLim == @LIM@
 MCOps == @OPS@
 MCKeys == @KEYS@
 MCVals == @VALS@
+MCEvKeys == @EVKEYS@
+MCErrKeys == @ERRKEYS@
+MCEvTs == @EVTS@
+MCStacks == @STACKS@
+MCLinkCls == @LINKS@
 =============================================================================
